@@ -1,4 +1,5 @@
 pub mod c04;
+pub mod c04b;
 pub mod c05;
 #[macro_use]
 pub mod c14;
